@@ -225,6 +225,53 @@ func TestIssuer(t *testing.T) {
 			mustReject(t, s, iss, st.Request().Marshal(), "unregistered-origin-sharing-a-long-prefix")
 		}
 
+		// the same client, blind and ENTROPY for two requests that differ only in the origin name (so request key and HPKE
+		// encapsulated key coincide; only the ciphertext differs): the registered one is served first, then the unregistered
+		// look-alike must be refused - whatever was remembered from opening the first request
+		if gen.Uniform(t, 3, "sameEntropyOtherOrigin") == 0 {
+			la := gen.LookAlikes(sess.Origin)
+			other := gen.Pick(t, la, "otherOrigin")
+			if !registered[other] {
+				seedX := gen.Seed().Draw(t, "sharedEntropy")
+				mkReq := func(origin string) []byte {
+					saved := rand.Reader
+					rand.Reader = rt.NewDRBG(seedX)
+					defer func() { rand.Reader = saved }()
+					st, err := type3.NewRateLimitedClientFromSecret(sess.ClientSecret).CreateTokenRequest(sess.Challenge, sess.Nonces[0], sess.BlindKey, sess.KeyID, iss.TokenKey(), origin, iss.NameKey())
+					if err != nil {
+						t.Fatalf("harness: %v", err)
+					}
+					return append([]byte{}, st.Request().Marshal()...)
+				}
+				r1, r2 := mkReq(sess.Origin), mkReq(other)
+				if _, _, err, _ := evaluate(iss, r1); err != nil {
+					rt.Fail(t, "C07/honest-rejected", "honest request refused: %v", err)
+					return
+				}
+				mustReject(t, s, iss, r2, "unregistered-origin-same-entropy-as-a-served-request")
+				if bytes.Equal(r1[85:85+32], r2[85:85+32]) {
+					s.Class("same-encapsulated-key")
+				}
+			}
+		}
+		// a registered name and an unregistered one of the same length that collide under a weak checksum (a table keyed by
+		// length and CRC-32 / FNV / Adler / byte sum would take one for the other)
+		for _, tw := range gen.ChecksumTwins() {
+			if gen.Uniform(t, 3, "checksumTwins") != 0 {
+				continue
+			}
+			if !registered[tw.A] {
+				_ = iss.AddOrigin(tw.A)
+				registered[tw.A] = true
+			}
+			if !registered[tw.B] {
+				st, err := type3.NewRateLimitedClientFromSecret(sess.ClientSecret).CreateTokenRequest(sess.Challenge, sess.Nonces[0], sess.BlindKey, sess.KeyID, iss.TokenKey(), tw.B, iss.NameKey())
+				if err != nil {
+					t.Fatalf("harness: %v", err)
+				}
+				mustReject(t, s, iss, st.Request().Marshal(), "unregistered-origin-checksum-twin-"+tw.Hash)
+			}
+		}
 		// unregistered origins: honest client, names that are not registered
 		for i := 0; i < 3; i++ {
 			var o string
@@ -399,7 +446,7 @@ func TestIssuer(t *testing.T) {
 func honest2inner(sess *gen.Session) []byte {
 	b := make([]byte, 256)
 	rand.Read(b)
-	b[0] &= 0x3f // below the modulus
+	b[0] = 0 // below every modulus in use (also the 2041..2047-bit ones)
 	return b
 }
 
